@@ -45,29 +45,41 @@ def rc4(key,n):
     for _ in range(n):
         i=(i+1)&255; j=(j+S[i])&255; S[i],S[j]=S[j],S[i]; out.append(S[(S[i]+S[j])&255])
     return bytes(out)
-if __name__=='__main__':
-    import sys
-    from crysp.salsa20 import Salsa20; from crysp.chacha import Chacha; from crysp.rc4 import RC4; from crysp.bits import Bits
-    def msg(l,p=0): return bytes((i*37+11+p)&255 for i in range(l))
-    bad=0
-    for kl in (16,32):
-        for rounds in (2,8,12,20):
-            key=msg(kl,1); nonce=msg(8,2)
-            for ln in (0,1,63,64,65,130):
-                M=msg(ln,5)
-                g=Salsa20(Bits(key,bitorder=1),rounds).enc(Bits(nonce,bitorder=1),M)
-                if g!=stream(salsa_block,key,nonce,rounds,M): bad+=1; print('salsa mismatch',kl,rounds,ln)
-                g=Chacha(Bits(key,bitorder=1),rounds).enc(Bits(nonce,bitorder=1),M)
-                if g!=stream(chacha_block,key,nonce,rounds,M): bad+=1; print('chacha mismatch',kl,rounds,ln)
-    # salsa hash
-    X=msg(64,9)
-    print('salsa hash',Salsa20().hash(X)==struct.pack('<16I',*salsa_core(list(struct.unpack('<16I',X)))))
-    # rfc-ish: salsa20 spec example hash first bytes
+def rc4_full(key,n):
+    """(keystream of n bytes, S, i, j) after generating them"""
+    S=list(range(256)); j=0
+    for i in range(256):
+        j=(j+S[i]+key[i%len(key)])&255; S[i],S[j]=S[j],S[i]
+    i=j=0; out=bytearray()
+    for _ in range(n):
+        i=(i+1)&255; j=(j+S[i])&255; S[i],S[j]=S[j],S[i]; out.append(S[(S[i]+S[j])&255])
+    return bytes(out),S,i,j
+def selftest():
+    import json, os
+    n=0
+    # Salsa20 specification, section 8 (core example) and section 9/10 (expansion examples)
     L=[211,159,13,115,76,55,82,183,3,117,222,37,191,187,234,136,49,237,179,48,1,106,178,219,175,199,166,48,86,16,179,207,31,240,32,63,15,83,93,161,116,147,48,113,238,55,204,36,79,201,235,79,3,81,156,47,203,26,244,243,88,118,104,54]
     r=struct.pack('<16I',*salsa_core(list(struct.unpack('<16I',bytes(L)))))
-    print('spec core example',list(r[:3])==[109,42,178],list(r[-3:])==[19,48,202])
-    for kl in (1,3,5,16,255,256):
-        key=msg(kl,kl)
-        if RC4(key).enc(b'\0'*40)!=rc4(key,40): bad+=1; print('rc4 mismatch',kl)
-    R=RC4(b'Key'); parts=R.enc(b'\0'*3)+R.enc(b'\0'*5)+R.enc(b'\0'*2)
-    print('rc4 split',parts==rc4(b'Key',10), 'bad',bad)
+    if list(r[:3])!=[109,42,178] or list(r[-3:])!=[19,48,202]: raise AssertionError('salsa20 core example')
+    k0=bytes(range(1,17)); k1=bytes(range(201,217)); nn=bytes(range(101,117))
+    b=salsa_block(k0+k1,nn[:8],int.from_bytes(nn[8:],'little'),20)
+    if list(b[:5])!=[69,37,68,39,41] or list(b[-5:])!=[236,234,103,246,74]: raise AssertionError('salsa20 expansion 32')
+    b=salsa_block(k0,nn[:8],int.from_bytes(nn[8:],'little'),20)
+    if list(b[:5])!=[39,173,46,248,30] or list(b[-5:])!=[181,104,182,177,193]: raise AssertionError('salsa20 expansion 16')
+    # draft-strombergson-chacha-test-vectors TC1 (128-bit zero key, zero IV), 8 and 12 rounds, blocks 0 and 1
+    z=bytes(16); iv=bytes(8)
+    for rounds,blk,pre in ((8,0,'e28a5fa4a67f8c5d'),(8,1,'8a26af448a1ba906'),(12,0,'e1047ba9476bf8ff'),(12,1,'1d43b61a8f7e19fc')):
+        if chacha_block(z,iv,blk,rounds)[:8].hex()!=pre: raise AssertionError(('chacha TC1',rounds,blk))
+        n+=1
+    kat=json.load(open(os.path.join(os.path.dirname(os.path.dirname(os.path.dirname(os.path.abspath(__file__)))),'kats','streams.json')))
+    for e in kat['streams']:
+        key=bytes.fromhex(e['key'])
+        if e['alg'].startswith('rc4'):
+            if rc4(key,e['n']).hex()!=e['ks']: raise AssertionError(('rc4 vs openssl',e['key']))
+        else:
+            got=stream(chacha_block,key,bytes.fromhex(e['nonce']),20,bytes(e['n']),ctr0=e['counter'])
+            if got.hex()!=e['ks']: raise AssertionError(('chacha20 vs openssl',e['key'],e['counter']))
+        n+=1
+    # RFC 6229, key 0102030405: first 16 keystream bytes
+    if rc4(bytes.fromhex('0102030405'),16).hex()!='b2396305f03dc027ccc3524a0a1118a8': raise AssertionError('rc4 rfc6229')
+    return n+4
